@@ -178,6 +178,27 @@ def handle (fields : List String) : String :=
     match Json.parseCanon canon with
     | some (.arr toks) => if wfTokens toks mx.toNat! then "ok" else "bad"
     | _ => "unparsable"
+  | ["tmpl_eval", tmplCanon, envCanon] =>
+    match Json.parseCanon tmplCanon, Json.parseCanon envCanon with
+    | some tj, some ej =>
+      match tmplOfJson 40 tj with
+      | none => "bad-template"
+      | some t =>
+        let args := match ej.get? "args" with
+          | some (.obj kv) => kv.map (fun p => (p.1, valOfJson p.2))
+          | _ => []
+        let env := mkTEnv args (ej.getBool "escape")
+        match evalTmpl env t with
+        | some out => "ok " ++ encStr out.erase
+        | none => "opaque"
+    | _, _ => "unparsable"
+  | ["tmpl_render", toksCanon, esc] =>
+    match Json.parseCanon toksCanon with
+    | some (.arr toks) =>
+      let out := renderToks Generated.templates (fun a => mkTEnv a (esc == "1")) 64 toks
+      let refined := toks.all (refinedOk Generated.templates 64)
+      "ok " ++ (if refined then "R" else "r") ++ (if out.safeB then "S" else "s") ++ " " ++ encStr out.erase
+    | _ => "unparsable"
   | ["ping"] => "pong"
   | _ => "bad-op"
 
